@@ -171,16 +171,27 @@ def make_feature_list(settings, rng):
 # ---------------------------------------------------------------------------------
 # evaluators and models
 # ---------------------------------------------------------------------------------
-EVALUATOR_KINDS = ["rbf", "kernel", "spline", "linear", "rbf+linear", "spline+rbf"]
+EVALUATOR_KINDS = ["rbf", "kernel", "spline", "linear", "rbf+linear", "spline+rbf", "antisym"]
 
 
 def _make_fevals(kind, N1, rng, mode, bounds, layout=None):
     from ciderpress.dft import xc_evaluator as xe
-    from ciderpress.models.kernels import DiffConstantKernel, DiffRBF
+    from ciderpress.models.kernels import DiffAntisymRBF, DiffConstantKernel, DiffRBF
 
     nprng = rng.np_rng()
     fevals = []
     for part in kind.split("+"):
+        if part == "antisym" and N1 >= 2:
+            # antisymmetric RBF: the kernel has one length scale fewer than there are features
+            nctrl = rng.randint(3, 9)
+            lo = np.array([max(b[0], -2.0) for b in bounds])
+            hi = np.array([min(b[1], 2.0) for b in bounds])
+            kern = DiffConstantKernel(float(nprng.uniform(0.5, 1.5)), constant_value_bounds="fixed") * DiffAntisymRBF(length_scale=nprng.uniform(0.3, 1.0, N1 - 1), length_scale_bounds="fixed")
+            X1c = lo + (hi - lo) * nprng.uniform(size=(nctrl, N1))
+            fevals.append(xe.AntisymRBFEvaluator(kern, X1c, nprng.normal(size=nctrl) * 0.05))
+            continue
+        if part == "antisym":
+            part = "rbf"
         if part in ("rbf", "kernel", "spinrbf"):
             nctrl = rng.randint(3, 9)
             lo = np.array([max(b[0], -2.0) for b in bounds])
